@@ -1,6 +1,238 @@
-import Qentem.Model.BigInt
-/-! C19 — BigInt holds the exact mathematical integer after every operation that fits. -/
+import Qentem.Proofs.BigIntPred
+import Qentem.Proofs.BigIntDiv
+import Qentem.Proofs.BigIntHelpers
+/-! C19 — BigInt holds the exact mathematical integer after every operation that fits.
+
+`Inv W s` (Proofs/BigIntBasic) is the representation invariant: n ≥ 1 words below 2^W, the words above
+`index_` are zero, `index_` is the highest non-zero word (0 for zero).  `specStep W n a op` (Model) is
+the exact-integer meaning of an operation on the held value `a` (`none` = the exact result does not fit
+n·W bits or the operation's precondition fails).  `step` runs the checked model: `.ok` means that no
+`storage_[i]` access was out of range. -/
 namespace Qentem.Props.C19
 open Qentem.BigInt
+
+/-- One operation is exact, in bounds and invariant-preserving whenever the specification is defined. -/
+def StepExact (c : Cfg) (op : Op) : Prop :=
+  ∀ (s : Big) (a' : Nat) (r : Ret), Inv c.W s →
+    specStep c.W s.words.length (s.val c.W) op = some (a', r) →
+    ∃ s', step c s op = .ok (s', r) ∧ Inv c.W s' ∧ s'.words.length = s.words.length ∧ s'.val c.W = a'
+
+/-- The exact-integer meaning of an operation sequence. -/
+def specRun (W n : Nat) : Nat → List Op → Option (Nat × List Ret)
+  | a, [] => some (a, [])
+  | a, o :: os =>
+    match specStep W n a o with
+    | none => none
+    | some (a1, r) =>
+      match specRun W n a1 os with
+      | none => none
+      | some (a2, rs) => some (a2, r :: rs)
+
+/-- A configuration the C++ can instantiate: at least one bit per word; the half-word helper needs an
+even word width. -/
+def GoodCfg (c : Cfg) : Prop := 0 < c.W ∧ (c.hand = true → c.W % 2 = 0)
+
+/-- **C19, full strength** (statement): every operation of every configuration is exact. -/
+def C19_full : Prop := ∀ c : Cfg, GoodCfg c → ∀ op : Op, StepExact c op
+
+/-- The operations covered by the proved step theorem: operands of `=`, `+=`, `-=`, `|=`, `&=` and the
+target of the narrowing conversion are at most one word wide. Open: operands wider than a word,
+`<<=`, `>>=`, `FindFirstBit`. -/
+def Covered (W : Nat) : Op → Prop
+  | .assign K _ => K ≤ W
+  | .bop _ K _ => K ≤ W
+  | .narrow K => K ≤ W
+  | .shl _ => False
+  | .shr _ => False
+  | .ffb => False
+  | _ => True
+
+theorem pow_comm' (W n : Nat) : 2 ^ (n * W) = 2 ^ (W * n) := by rw [Nat.mul_comm]
+
+/-- Every covered operation is exact, never leaves the storage and re-establishes the invariant —
+given that the configuration's double-word helpers are exact. -/
+theorem step_exact_partial (c : Cfg) (hm : MulOK c) (hd : DivOK c) (op : Op) (hc : Covered c.W op) :
+    StepExact c op := by
+  intro s a' r h hspec
+  cases op with
+  | assign K x =>
+    simp only [specStep] at hspec
+    split at hspec
+    · rename_i hx
+      simp only [Option.some.injEq, Prod.mk.injEq] at hspec
+      obtain ⟨rfl, rfl⟩ := hspec
+      obtain ⟨s', hrun, hinv, hl, hv⟩ := assign_small_spec s x h hc hx.1
+      exact ⟨s', by simp [step, hrun, bind, Except.bind, pure, Except.pure], hinv, hl, hv⟩
+    · exact absurd hspec (by simp)
+  | bop o K x =>
+    simp only [specStep] at hspec
+    split at hspec
+    · rename_i hx
+      cases o with
+      | add =>
+        simp only [] at hspec
+        split at hspec
+        · rename_i hfit
+          simp only [Option.some.injEq, Prod.mk.injEq] at hspec
+          obtain ⟨rfl, rfl⟩ := hspec
+          obtain ⟨s', hrun, hinv, hl, hv⟩ := add_small_spec s x h hc hx (by rw [← pow_comm']; exact hfit)
+          exact ⟨s', by simp [step, hrun, bind, Except.bind, pure, Except.pure], hinv, hl, hv⟩
+        · exact absurd hspec (by simp)
+      | sub =>
+        simp only [] at hspec
+        split at hspec
+        · rename_i hfit
+          simp only [Option.some.injEq, Prod.mk.injEq] at hspec
+          obtain ⟨rfl, rfl⟩ := hspec
+          obtain ⟨s', hrun, hinv, hl, hv⟩ := sub_small_spec s x h hc hx hfit
+          exact ⟨s', by simp [step, hrun, bind, Except.bind, pure, Except.pure], hinv, hl, hv⟩
+        · exact absurd hspec (by simp)
+      | or =>
+        simp only [] at hspec
+        split at hspec
+        · simp only [Option.some.injEq, Prod.mk.injEq] at hspec
+          obtain ⟨rfl, rfl⟩ := hspec
+          obtain ⟨s', hrun, hinv, hl, hv⟩ := or_small_spec s x h hc hx
+          exact ⟨s', by simp [step, hrun, bind, Except.bind, pure, Except.pure], hinv, hl, hv⟩
+        · exact absurd hspec (by simp)
+      | and =>
+        simp only [] at hspec
+        split at hspec
+        · simp only [Option.some.injEq, Prod.mk.injEq] at hspec
+          obtain ⟨rfl, rfl⟩ := hspec
+          obtain ⟨s', hrun, hinv, hl, hv⟩ := and_small_spec s x h hc hx
+          exact ⟨s', by simp [step, hrun, bind, Except.bind, pure, Except.pure], hinv, hl, hv⟩
+        · exact absurd hspec (by simp)
+      | set => exact absurd hspec (by simp)
+    · exact absurd hspec (by simp)
+  | mul x =>
+    simp only [specStep] at hspec
+    split at hspec
+    · rename_i hx
+      simp only [Option.some.injEq, Prod.mk.injEq] at hspec
+      obtain ⟨rfl, rfl⟩ := hspec
+      obtain ⟨s', hrun, hinv, hl, hv⟩ := multiply_spec hm s x h hx.1 (by rw [← pow_comm']; exact hx.2)
+      exact ⟨s', by simp [step, hrun, bind, Except.bind, pure, Except.pure], hinv, hl, hv⟩
+    · exact absurd hspec (by simp)
+  | div d =>
+    simp only [specStep] at hspec
+    split at hspec
+    · rename_i hx
+      simp only [Option.some.injEq, Prod.mk.injEq] at hspec
+      obtain ⟨rfl, rfl⟩ := hspec
+      obtain ⟨s', r', hrun, hinv, hl, hv, hr⟩ := divide_spec hd s d h hx.1 hx.2
+      have hdm := (Nat.div_mod_unique hx.1).2 ⟨(by rw [Nat.add_comm]; exact hv.symm : r' + d * s'.val c.W = s.val c.W), hr⟩
+      refine ⟨s', ?_, hinv, hl, hdm.1.symm⟩
+      simp [step, hrun, bind, Except.bind, pure, Except.pure, hdm.2]
+    · exact absurd hspec (by simp)
+  | shl k => exact absurd hc (by simp [Covered])
+  | shr k => exact absurd hc (by simp [Covered])
+  | ffb => exact absurd hc (by simp [Covered])
+  | cmp rel x =>
+    simp only [specStep] at hspec
+    split at hspec
+    · rename_i hx
+      simp only [Option.some.injEq, Prod.mk.injEq] at hspec
+      obtain ⟨rfl, rfl⟩ := hspec
+      exact ⟨s, by simp [step, cmpWord_spec s rel x h hx, bind, Except.bind, pure, Except.pure], h, rfl, rfl⟩
+    · exact absurd hspec (by simp)
+  | isBig =>
+    simp only [specStep, Option.some.injEq, Prod.mk.injEq] at hspec
+    obtain ⟨rfl, rfl⟩ := hspec
+    exact ⟨s, by simp [step, isBig_spec s h, pure, Except.pure], h, rfl, rfl⟩
+  | notZero =>
+    simp only [specStep, Option.some.injEq, Prod.mk.injEq] at hspec
+    obtain ⟨rfl, rfl⟩ := hspec
+    refine ⟨s, ?_, h, rfl, rfl⟩
+    simp [step, notZero, cmpWord_spec s .ne 0 h (Nat.pow_pos (by decide)), bind, Except.bind, pure, Except.pure, cmpSpec]
+  | isZero =>
+    simp only [specStep, Option.some.injEq, Prod.mk.injEq] at hspec
+    obtain ⟨rfl, rfl⟩ := hspec
+    refine ⟨s, ?_, h, rfl, rfl⟩
+    simp [step, isZero, cmpWord_spec s .eq 0 h (Nat.pow_pos (by decide)), bind, Except.bind, pure, Except.pure, cmpSpec]
+  | number =>
+    simp only [specStep, Option.some.injEq, Prod.mk.injEq] at hspec
+    obtain ⟨rfl, rfl⟩ := hspec
+    exact ⟨s, by simp [step, number_spec s h, bind, Except.bind, pure, Except.pure], h, rfl, rfl⟩
+  | narrow K =>
+    simp only [specStep, Option.some.injEq, Prod.mk.injEq] at hspec
+    obtain ⟨rfl, rfl⟩ := hspec
+    exact ⟨s, by simp [step, narrow_small_spec s h hc, bind, Except.bind, pure, Except.pure], h, rfl, rfl⟩
+  | flb =>
+    simp only [specStep] at hspec
+    split at hspec
+    · rename_i hx
+      simp only [Option.some.injEq, Prod.mk.injEq] at hspec
+      obtain ⟨rfl, rfl⟩ := hspec
+      exact ⟨s, by simp [step, findLastBit_spec s h hx, bind, Except.bind, pure, Except.pure], h, rfl, rfl⟩
+    · exact absurd hspec (by simp)
+  | clear =>
+    simp only [specStep, Option.some.injEq, Prod.mk.injEq] at hspec
+    obtain ⟨rfl, rfl⟩ := hspec
+    obtain ⟨s', hrun, hinv, hl, hv⟩ := clear_spec (W := c.W) s h
+    exact ⟨s', by simp [step, hrun, bind, Except.bind, pure, Except.pure], hinv, hl, hv⟩
+
+/-- Lifting to operation sequences: if every operation of the sequence is exact, then whenever the
+exact-integer run is defined (everything fits), the checked model run does not fault, returns the
+same values, ends in an invariant state and holds exactly the specified integer. -/
+theorem run_exact (c : Cfg) : ∀ (ops : List Op) (s : Big) (a' : Nat) (rs : List Ret),
+    (∀ op ∈ ops, StepExact c op) → Inv c.W s →
+    specRun c.W s.words.length (s.val c.W) ops = some (a', rs) →
+    ∃ s', run c s ops = .ok (s', rs) ∧ Inv c.W s' ∧ s'.words.length = s.words.length ∧ s'.val c.W = a'
+  | [], s, a', rs, _, h, hspec => by
+    simp only [specRun, Option.some.injEq, Prod.mk.injEq] at hspec
+    obtain ⟨rfl, rfl⟩ := hspec
+    exact ⟨s, rfl, h, rfl, rfl⟩
+  | o :: os, s, a', rs, hall, h, hspec => by
+    simp only [specRun] at hspec
+    split at hspec
+    · exact absurd hspec (by simp)
+    · rename_i a1 r1 hs1
+      split at hspec
+      · exact absurd hspec (by simp)
+      · rename_i a2 rs2 hs2
+        simp only [Option.some.injEq, Prod.mk.injEq] at hspec
+        obtain ⟨rfl, rfl⟩ := hspec
+        obtain ⟨s1, hstep, hinv1, hl1, hv1⟩ := hall o (by simp) s a1 r1 h hs1
+        obtain ⟨s2, hrun, hinv2, hl2, hv2⟩ := run_exact c os s1 a2 rs2 (fun op hop => hall op (by simp [hop])) hinv1
+          (by rw [hl1, hv1]; exact hs2)
+        refine ⟨s2, ?_, hinv2, by omega, hv2⟩
+        simp [run, hstep, hrun, bind, Except.bind, pure, Except.pure]
+
+/-- Sequences of covered operations on a fresh object with the native double-width helpers
+(8/16/32-bit words in the C++; any word width ≥ 1 and any word count ≥ 1 here). -/
+theorem sequence_exact_native (W n : Nat) (hW : 0 < W) (hn : 0 < n) (ops : List Op) (a' : Nat) (rs : List Ret)
+    (hcov : ∀ op ∈ ops, Covered W op) (hspec : specRun W n 0 ops = some (a', rs)) :
+    ∃ s', run ⟨W, false⟩ (zero n) ops = .ok (s', rs) ∧ Inv W s' ∧ s'.words.length = n ∧ s'.val W = a' := by
+  have hlen : (zero n).words.length = n := by simp [zero]
+  have := run_exact ⟨W, false⟩ ops (zero n) a' rs
+    (fun op hop => step_exact_partial ⟨W, false⟩ (mulOK_native W) (divOK_native W) op (hcov op hop))
+    (inv_zero hW hn) (by rw [hlen, val_zero]; exact hspec)
+  simpa [hlen] using this
+
+/-- The same with the half-word helpers (64-bit words in the C++; any half width h ≥ 1 here), relative to
+the exactness of the half-word divide. -/
+theorem sequence_exact_hand (h n : Nat) (hh : 0 < h) (hn : 0 < n) (hdiv : DivOK ⟨2 * h, true⟩)
+    (ops : List Op) (a' : Nat) (rs : List Ret)
+    (hcov : ∀ op ∈ ops, Covered (2 * h) op) (hspec : specRun (2 * h) n 0 ops = some (a', rs)) :
+    ∃ s', run ⟨2 * h, true⟩ (zero n) ops = .ok (s', rs) ∧ Inv (2 * h) s' ∧ s'.words.length = n ∧
+      s'.val (2 * h) = a' := by
+  have hlen : (zero n).words.length = n := by simp [zero]
+  have := run_exact ⟨2 * h, true⟩ ops (zero n) a' rs
+    (fun op hop => step_exact_partial ⟨2 * h, true⟩ (mulOK_hand h) hdiv op (hcov op hop))
+    (inv_zero (by show 0 < 2 * h; omega) hn) (by rw [hlen, val_zero]; exact hspec)
+  simpa [hlen] using this
+
+/-- The half-word multiply is exact for every half width (`hi·2^W + lo = a·b`). -/
+theorem mul_helper_exact (h a b : Nat) (ha : a < 2 ^ (2 * h)) (hb : b < 2 ^ (2 * h)) :
+    (mulHand h a b).1 * 2 ^ (2 * h) + (mulHand h a b).2 = a * b := (mulHand_exact h a b ha hb).1
+
+/-- **Open**: the half-word divide is exact for every half width under its precondition. -/
+def div_helper_exact : Prop := ∀ h : Nat, 0 < h → DivOK ⟨2 * h, true⟩
+
+/-! Non-vacuity: a concrete run where everything fits (8-bit words, 4 words):
+200 + 255 = 455; ·200 = 91000; /9 = 10111 rem 1; 10111 > 9; log2 10111 = 13. -/
+example : specRun 8 4 0 [.assign 8 200, .bop .add 8 255, .mul 200, .div 9, .cmp .gt 9, .flb]
+    = some (10111, [.none, .none, .none, .nat 1, .bool true, .nat 13]) := by decide
 
 end Qentem.Props.C19
